@@ -142,7 +142,14 @@ fn run_one(keyed: bool, m: i64, hc: bool, exec: &Exec, rows: &Value) -> Value {
             let p = Pipeline::default();
             let src = from_vec(&p, data);
             // the convenience wrapper where one exists, the general entry point otherwise
-            let v = if !hc && mode == ValidationMode::SkipInvalid {
+            let v = if mutant::id() != 0 {
+                src.apply_transform(Arc::new(mutant::ValidateValuesOp::<i64, Rec> {
+                    mu: mutant::id(),
+                    mode,
+                    collector: given,
+                    _phantom: std::marker::PhantomData,
+                }))
+            } else if !hc && mode == ValidationMode::SkipInvalid {
                 src.validate_values_skip_invalid()
             } else {
                 src.validate_values_with_mode(mode, given)
@@ -164,7 +171,14 @@ fn run_one(keyed: bool, m: i64, hc: bool, exec: &Exec, rows: &Value) -> Value {
         let res = catch_unwind(AssertUnwindSafe(|| {
             let p = Pipeline::default();
             let src = from_vec(&p, data);
-            let v = if !hc && mode == ValidationMode::SkipInvalid {
+            let v = if mutant::id() != 0 {
+                src.apply_transform(Arc::new(mutant::ValidateOp::<Rec> {
+                    mu: mutant::id(),
+                    mode,
+                    collector: given,
+                    _phantom: std::marker::PhantomData,
+                }))
+            } else if !hc && mode == ValidationMode::SkipInvalid {
                 src.validate_skip_invalid()
             } else if !hc && mode == ValidationMode::FailFast {
                 src.validate_fail_fast()
@@ -290,6 +304,14 @@ fn run(kind: &str, input: &Value) -> Value {
                         Step::Filter(m, r) => {
                             c.filter_values(move |x: &Rec| x.0.rem_euclid(m) != r)
                         }
+                        Step::Validate(md, hc) if mutant::id() != 0 => {
+                            c.apply_transform(Arc::new(mutant::ValidateValuesOp::<i64, Rec> {
+                                mu: mutant::id(),
+                                mode: md,
+                                collector: if hc { Some(Arc::clone(&coll)) } else { None },
+                                _phantom: std::marker::PhantomData,
+                            }))
+                        }
                         Step::Validate(md, hc) => c.validate_values_with_mode(
                             md,
                             if hc { Some(Arc::clone(&coll)) } else { None },
@@ -318,12 +340,153 @@ fn run(kind: &str, input: &Value) -> Value {
                     }
                 }
             }
-            match combine_validations(rs) {
+            let combined = if mutant::id() != 0 {
+                mutant::combine_validations(mutant::id(), rs)
+            } else {
+                combine_validations(rs)
+            };
+            match combined {
                 Ok(()) => Value::Null,
                 Err(es) => json!(es.iter().map(err_code).collect::<Vec<i64>>()),
             }
         }
         _ => json!(["invalid"]),
+    }
+}
+
+// ------------------------------------------------------------------ sensitivity self-test
+// `C17_SELFTEST_MUTANT=<n>` (never set by check.py) replaces the real operators by COPIES of
+// src/helpers/validation.rs::{ValidateOp, ValidateValuesOp}::apply / combine_validations that
+// carry one realistic defect each; `python3 check.py C17` must then exit 1. Unset = real code.
+mod mutant {
+    use super::{ErrorCollector, Validate, ValidationError, ValidationMode, ValidationResult};
+    use ironbeam::{DynOp, Partition, RFBound};
+    use std::marker::PhantomData;
+    use std::sync::{Arc, Mutex};
+
+    pub fn id() -> u32 {
+        std::env::var("C17_SELFTEST_MUTANT").ok().and_then(|s| s.parse().ok()).unwrap_or(0)
+    }
+
+    /// the shared loop of both operators, with the defect selected by `mu`
+    fn body<T, V: Validate>(
+        mu: u32,
+        mode: ValidationMode,
+        collector: Option<&Arc<Mutex<ErrorCollector>>>,
+        prefix: &str,
+        elements: Vec<T>,
+        value: impl Fn(&T) -> &V,
+    ) -> Vec<T> {
+        let mut valid = Vec::new();
+        let n = elements.len();
+        for (idx, elem) in elements.into_iter().enumerate() {
+            match value(&elem).validate() {
+                Ok(()) => {
+                    if mu == 9 {
+                        valid.insert(0, elem); // output order reversed within a partition
+                    } else {
+                        valid.push(elem);
+                    }
+                }
+                Err(errors) => {
+                    if mu == 10 && errors.is_empty() {
+                        valid.push(elem); // Err(vec![]) treated as valid
+                        continue;
+                    }
+                    let mode = if mu == 2 && mode == ValidationMode::SkipInvalid {
+                        ValidationMode::LogAndContinue // skip mode logs as well
+                    } else {
+                        mode
+                    };
+                    match mode {
+                        ValidationMode::SkipInvalid => {}
+                        ValidationMode::LogAndContinue => {
+                            if mu == 3 && idx + 1 == n {
+                                continue; // the last record of a partition is never logged
+                            }
+                            if mu == 11 {
+                                valid.push(elem); // logged but not dropped
+                            }
+                            if let Some(c) = collector {
+                                let shown = if mu == 1 { idx + 1 } else { idx };
+                                let errs: Vec<ValidationError> = if mu == 6 {
+                                    errors.into_iter().take(1).collect() // payload truncated
+                                } else {
+                                    errors
+                                };
+                                c.lock().unwrap().add_error(Some(format!("{prefix}{shown}")), errs);
+                                if mu == 7 && idx == 0 {
+                                    // first record of a partition logged twice
+                                    c.lock().unwrap().add_error(Some(format!("{prefix}0")), vec![]);
+                                }
+                            }
+                        }
+                        ValidationMode::FailFast => {
+                            if mu == 4 && idx != 0 {
+                                continue; // only the first record of a partition is fatal
+                            }
+                            panic!("Validation failed at record {idx}");
+                        }
+                    }
+                }
+            }
+        }
+        valid
+    }
+
+    pub struct ValidateOp<T: RFBound + Validate> {
+        pub mu: u32,
+        pub mode: ValidationMode,
+        pub collector: Option<Arc<Mutex<ErrorCollector>>>,
+        pub _phantom: PhantomData<T>,
+    }
+    impl<T: RFBound + Validate> DynOp for ValidateOp<T> {
+        fn apply(&self, input: Partition) -> Partition {
+            let elements = *input.downcast::<Vec<T>>().expect("ValidateOp: expected Vec<T>");
+            Box::new(body(self.mu, self.mode, self.collector.as_ref(), "record_", elements, |e| e))
+        }
+    }
+
+    pub struct ValidateValuesOp<K: RFBound, V: RFBound + Validate> {
+        pub mu: u32,
+        pub mode: ValidationMode,
+        pub collector: Option<Arc<Mutex<ErrorCollector>>>,
+        pub _phantom: PhantomData<(K, V)>,
+    }
+    impl<K: RFBound, V: RFBound + Validate> DynOp for ValidateValuesOp<K, V> {
+        fn apply(&self, input: Partition) -> Partition {
+            let pairs = *input
+                .downcast::<Vec<(K, V)>>()
+                .expect("ValidateValuesOp: expected Vec<(K, V)>");
+            Box::new(body(self.mu, self.mode, self.collector.as_ref(), "pair_", pairs, |kv| &kv.1))
+        }
+        fn key_preserving(&self) -> bool {
+            true
+        }
+        fn value_only(&self) -> bool {
+            true
+        }
+        fn reorder_safe_with_value_only(&self) -> bool {
+            self.mu == 5 // declared reorder-safe: the planner will move it
+        }
+    }
+
+    pub fn combine_validations(mu: u32, results: Vec<ValidationResult>) -> ValidationResult {
+        let mut all_errors = Vec::new();
+        for result in results {
+            if let Err(mut errors) = result {
+                if mu == 12 {
+                    return Err(errors); // stops at the first failing part
+                }
+                if mu == 13 {
+                    errors.append(&mut all_errors); // newest first
+                    all_errors = errors;
+                } else {
+                    all_errors.append(&mut errors);
+                }
+            }
+        }
+        if all_errors.is_empty() { Ok(()) } else { Err(all_errors) }
     }
 }
 
